@@ -202,6 +202,7 @@ func init() {
 			{Name: "edges", Run: edgeUnit("fastq")},
 			{Name: "fieldlens", TShards: 2, Run: lengthUnit("fastq")},
 			{Name: "parallel", Race: true, Run: codecParallel("fastq")},
+			{Name: "histories", Run: codecHistories("fastq")},
 		},
 	})
 }
